@@ -230,3 +230,12 @@ pub fn take_log_since(from: usize) -> Vec<Draw> {
 pub fn set_logging(on: bool) {
     RNG.with(|r| r.borrow_mut().logging = on);
 }
+
+/// run `f` under a private default environment and restore the current one (script position, draw log) afterwards
+pub fn isolated<R>(f: impl FnOnce() -> R) -> R {
+    let fresh = State { mode: Mode::Counter(0x150), pos: 0, next_index: 0, fail_at: Vec::new(), script: Vec::new(), log: Vec::new(), logging: false, on_draw: None };
+    let saved = RNG.with(|r| std::mem::replace(&mut *r.borrow_mut(), fresh));
+    let r = f();
+    RNG.with(|x| *x.borrow_mut() = saved);
+    r
+}
